@@ -77,4 +77,33 @@ example : lplRow 2 [2, FILL] [0, 1, 2, 3, 4, 5] = some [0, 3, 5, FILL, FILL, FIL
 example : lplRow 2 [3, FILL] [0, 1, 2, 3, 4, 5] = none ∧ lplSpecRow 2 [3, FILL] [0, 1, 2, 3, 4, 5] = none := by decide
 example : lplRow 2 [FILL] [7] = some [7, FILL, FILL] ∧ lplSpecRow 2 [FILL] [7] = some [7, FILL, FILL] := by decide
 
+/-- LAA depends only on which alleles occur in the call, not on their order or multiplicity
+    (`0/1`, `1/0`, `1|0` and `1/1/0` all give `[1]`) -/
+theorem C17_laa_set_invariant (alt : Nat) (gt gt' : List Int) (h : ∀ g, g ∈ gt ↔ g ∈ gt') :
+    localAlleles alt gt = localAlleles alt gt' := by
+  rw [C17_laa_spec, C17_laa_spec]
+  congr 1
+  apply List.filter_congr
+  intro a _
+  simp only [h]
+
+/-- complete: every positive allele of the call that the header declares is listed -/
+theorem C17_laa_complete (alt : Nat) (gt : List Int) (a : Nat) (h1 : 1 ≤ a) (h2 : a ≤ alt)
+    (hmem : (Int.ofNat a) ∈ gt) : (Int.ofNat a) ∈ localAlleles alt gt := by
+  rw [C17_laa_spec]
+  apply List.mem_map.mpr
+  refine ⟨a, ?_, rfl⟩
+  simp only [List.mem_filter, List.mem_range, decide_eq_true_eq]
+  exact ⟨by omega, h1, hmem⟩
+
+/-- a call with no alternate allele (hom-ref, missing, padded) has an empty list -/
+theorem C17_laa_ref_or_missing (alt : Nat) (gt : List Int) (h : ∀ g ∈ gt, g ≤ 0) :
+    localAlleles alt gt = [] := by
+  rw [C17_laa_spec]
+  simp only [List.map_eq_nil_iff, List.filter_eq_nil_iff, List.mem_range, decide_eq_true_eq]
+  intro a _ ⟨h1, hm⟩
+  have := h _ hm
+  simp at this
+  omega
+
 end B2Z.LA
